@@ -168,7 +168,38 @@ ROLE_SCRIPTS = adversary.ROLE_SCRIPTS
 UPSTREAM_BEHAVIOURS = adversary.UPSTREAM_BEHAVIOURS
 
 
+def run_tls_front_silent(case: Dict[str, Any]) -> Dict[str, Any]:
+    """Proxy with its own TLS front (--key-file/--cert-file), threadless: a client that connects and then says nothing
+    (or sends half a ClientHello).  The executor must keep iterating for its other connections."""
+    import socket as _socket
+    from checks import c10
+    key, crt = c10.tls_files()
+    flags = make_flags(['--key-file', key, '--cert-file', crt], cache_key='c05:tls')
+    shim.S.reset()
+    rig = StepRig(flags, case.get('mode', 'local'))
+    viol: List[Dict[str, Any]] = []
+    adv = case['adv']
+    try:
+        a, b = _socket.socketpair(_socket.AF_UNIX, _socket.SOCK_STREAM)
+        from rig.peers import Peer
+        peer = Peer(a, 'silent-tls-client')
+        rig.peers.append(peer)
+        if adv.get('hello'):
+            peer.send(b'\x16\x03\x01\x02\x00\x01\x00\x01\xfc\x03\x03' + b'\x00' * 20)      # the start of a ClientHello, then silence
+        rig.hand_over(b, None)
+        for _ in range(5):
+            rig.step()      # a stalled iteration is turned into LoopDied(STALL) by the rig's watchdog
+    except LoopDied as e:
+        viol.append({'key': 'tls-front|silent-client|loop-died:%s' % e.where(), 'detail': {'adversary': adv, 'tb': e.tb[-900:]}})
+    finally:
+        rig.close()
+    return {'viol': viol, 'nontrivial': True, 'sig': 'tls-front-silent/%s' % adv.get('hello'), 'obs': {'class:tls-front-silent': 1},
+            'sample': {'case': case}}
+
+
 def run_case(case: Dict[str, Any]) -> Dict[str, Any]:
+    if case['adv']['class'] == 'tls-front-silent':
+        return run_tls_front_silent(case)
     rng = random.Random('c05:%s:%s' % (case['seed'], case['i']))
     mode = case.get('mode', 'local')
     kind = case['canary']
@@ -331,6 +362,9 @@ def cases(tier: str, seed: int):
         yield mk({'class': 'reverse-switch', 'role': 'reverse', 'requests': rng.choice([3, 6, 12]), 'ending': rng.choice(['silence', 'silence', 'close']),
                   'holes': rng.choice([0, 1, 2, 3, 5, 8])},
                  canary=rng.choice(CANARIES))
+    # (4c) the proxy's own TLS front and a client that never completes (or never starts) the handshake
+    for hello in ((False,) if tier == 'quick' else (False, True, True)):
+        yield mk({'class': 'tls-front-silent', 'hello': hello}, mode='local')
     # (5) fault enumeration: every (kind, index, errno) up to the call counts of the fault-free runs
     bounds = {'forward': (6, 4, 1), 'forward-post': (6, 4, 1), 'tunnel': (8, 5, 1), 'web': (4, 3, 0), 'reverse': (7, 5, 1)}
     for role, (nr, ns, nc) in bounds.items():
